@@ -28,6 +28,7 @@ PROP = {  # commit subject prefix -> (property, what failed)
     "fix: a class named like an internally special type no longer panics": ("C03", "'class Union' panicked the generator: 'class name should be type' (found through C15 renamings, 57 cases)"),
     "fix: a function or method named size keeps its name": ("C15", "a definition named size was emitted as __size__, its call sites were not (49 renamings to `size`; also NameError under C04)"),
     "fix: a user class called Union is rendered by its name": ("C15", "'class Union(def x: Int)' ... 'Union(1)' was emitted as '1'; as a parent it panicked ('Expected type in parent')"),
+    "fix: names in a user import are reproduced verbatim": ("C16", "'from typing import List' was emitted as 'from typing import list'"),
 }
 def main():
     data = json.load(open(P)) if os.path.exists(P) else {"findings": []}
